@@ -98,6 +98,26 @@ def make_wires(quick):
                                        addl_protected=addl, ivs=IVS)
         wires.append(dict(id='built:%d:%s' % (idx, spec_name), profile='enc0-a128gcm', extra=None, wire=wire,
                           payload=all_specs[spec_name]['payload'], source='built', scope=scope, targets=targets))
+    # two and three SEPARATE BCBs from different security sources over different targets (source BCB over an
+    # extension block, gateway BCBs over the payload and another extension block), acceptance on and off
+    layers = [('enc0-a128gcm', 'enc0', [2], None, b'IvIvIvIvIv01'), ('enc0-a256gcm', 'enc0', [1], [1, '//gw1/'], b'IvIvIvIvIv02'),
+              ('enc-kw-a128gcm', 'enc', [4], [1, '//gw2/'], b'IvIvIvIvIv03')]
+    basew = plain.send(all_specs['S1'])
+    for (count, accept) in ((2, True), (3, True), (2, False)):
+        wire = basew
+        for (prof_name, kind, targets, source, iv) in layers[:count]:
+            prof = sd.PROFILES[prof_name]
+            (kid, key, alg, _ops) = prof['key']
+            if kind == 'enc':
+                wire = sd.build_security_block(wire, 'bcb', 'enc', prof['content_alg'], prof['content_key'], kid.encode(), targets,
+                                               scope={0: 1, -1: 1}, kek=key, kek_alg=alg, ivs=[iv], source=source)
+            else:
+                wire = sd.build_security_block(wire, 'bcb', 'enc0', alg, key, kid.encode(), targets, scope={0: 1, -1: 1}, ivs=[iv], source=source)
+        wires.append(dict(id='built:%dbcbs-%s:S1' % (count, 'on' if accept else 'off'), profile=layers[0][0],
+                          extra=[name for (name, _k, _t, _s, _i) in layers[1:count]], accept=accept, n_sec=count, wire=wire,
+                          payload=all_specs['S1']['payload'], source='built', scope={0: 1, -1: 1},
+                          targets=[tg[0] for (_n, _k, tg, _s, _i) in layers[:count]],
+                          key_names=[name for (name, _k, _t, _s, _i) in layers[:count]]))
     for ent in wires:
         spec = all_specs[ent['id'].split(':')[2]]
         ent['plain'] = {1: spec['payload']}
@@ -167,7 +187,7 @@ def suite_structure(chk, wires, batch):
 
 def combined_class(ent, alt):
     cls = sd.diff_covered(ent['wire'], alt, SEC_TYPE)
-    if ent.get('extra'):
+    if ent.get('extra') and any(blk[0] == sd.BIB for blk in wire_blocks(ent['wire']).values()):
         other = sd.diff_covered(ent['wire'], alt, sd.BIB)
         order = ['malformed', 'must_fail', 'asb_malformed', 'no_secblk', 'stripped', 'either', 'must_pass']
         return min((cls, other), key=lambda item: order.index(item[0]))
@@ -240,6 +260,24 @@ def oracle(suite, ent, case, cls, out, replay):
 
 # --------------------------------------------------------------------------- baseline
 
+def all_targets_recovered(node, ent):
+    ''' at an acceptor every target block holds exactly its original plaintext after the receive chain; at a
+    verify-only node every target still holds the octets received '''
+    from bp.util import BundleContainer
+    from bp.encoding import Bundle
+    ctr = BundleContainer(Bundle(ent['wire']))
+    node.reset()
+    node.agent.recv_bundle(ctr)
+    node.drv.drain()
+    blocks = wire_blocks(ent['wire'])
+    for tnum in ent['targets']:
+        have = bytes(ctr.block_num(tnum).getfieldval('btsd') or b'')
+        want = ent['plain'][tnum] if ent.get('accepting', True) else blocks[tnum][4]
+        if have != want:
+            return False
+    return True
+
+
 def suite_baseline(suite, wires):
     chk = suite.chk
     observations = {}
@@ -253,8 +291,9 @@ def suite_baseline(suite, wires):
                  sample=dict(suite='baseline', wire=ent['id'], plaintext_len=len(ent['payload']), wire_btsd_len=len(blocks[1][4]),
                              targets=ent['targets']))
         n_bcb = sum(1 for blk in blocks.values() if blk[0] == SEC_TYPE)
-        if n_bcb != 1:
-            chk.fail(signature='C16 / source did not add exactly one BCB', what='%s: %d BCBs' % (ent['id'], n_bcb), replay_obj=replay)
+        want_n = ent.get('n_sec', 1)
+        if n_bcb != want_n:
+            chk.fail(signature='C16 / source did not add the expected BCB(s)', what='%s: %d BCBs, expected %d' % (ent['id'], n_bcb, want_n), replay_obj=replay)
             continue
         for tnum in ent['targets']:
             on_wire = blocks[tnum][4]
@@ -267,8 +306,8 @@ def suite_baseline(suite, wires):
         out = good.recv(ent['wire'])
         vd = good.verify_direct(ent['wire'])
         want_hex = expect_payload_hex(ent)
-        if not (out['delivered'] and out['payload'] is not None and out['payload'].hex() == want_hex and vd['bcb'] == [None]
-                and vd['payload'].hex() == want_hex):
+        if not (out['delivered'] and out['payload'] is not None and out['payload'].hex() == want_hex and vd['bcb'] == [None] * want_n
+                and vd['payload'].hex() == want_hex and all_targets_recovered(good, ent)):
             chk.fail(signature='C16 / acceptor with the key does not recover the original plaintext',
                      what='%s: delivered=%r payload=%r verify_bcb=%r reason=%r' % (ent['id'], out['delivered'], out['payload'], vd['bcb'], out['reason']),
                      replay_obj=replay)
@@ -276,12 +315,22 @@ def suite_baseline(suite, wires):
         outb = bad.recv(ent['wire'])
         vdb = bad.verify_direct(ent['wire'])
         chk.case(ident=('wrongkey', ent['id']), nontrivial=True)
-        if outb['delivered'] or not outb['sec_failure'] or vdb['bcb'] != [sd.FAILED_SEC] or \
+        if outb['delivered'] or not outb['sec_failure'] or vdb['bcb'] != [sd.FAILED_SEC] * want_n or \
                 (1 in ent['targets'] and vdb['payload'] != blocks[1][4]):
             chk.fail(signature='C16 / wrong key: accepted, plaintext released or failure not reported',
                      what='%s: delivered=%r sec_failure=%r verify_bcb=%r data afterwards=%s' % (
                          ent['id'], outb['delivered'], outb['sec_failure'], vdb['bcb'], vdb['payload'].hex()[:60] if vdb['payload'] is not None else None),
                      replay_obj=dict(replay, wrong_key=True))
+        # each key wrong in turn (bundles with several BCBs): the bundle must not be delivered
+        for name in ent.get('key_names', []):
+            one = sd.receiver_from_spec(base.recv_spec(ent, wrong_key=[name]))
+            outo = one.recv(ent['wire'])
+            chk.case(ident=('wrongkey', ent['id'], name), nontrivial=True)
+            if outo['delivered'] or not outo['sec_failure']:
+                chk.fail(signature='C16 / wrong key: accepted, plaintext released or failure not reported',
+                         what='%s with only the key of %s wrong: delivered=%r sec_failure=%r reason=%r' % (
+                             ent['id'], name, outo['delivered'], outo['sec_failure'], outo['reason']),
+                         replay_obj=dict(replay, wrong_key=[name]))
         # a node that only verifies (accept_after_verify off, the default): what does it deliver?
         if ent['source'] == 'agent' and not ent.get('extra') and ent.get('accept') is None:
             ver = sd.make_receiver(prof, accept=False)
@@ -317,10 +366,11 @@ def check_one(suite, rep):
     (ent, cls, out) = run_one(rep)
     case = dict(label=rep['label'], alt=bytes.fromhex(rep['alt_hex']), kind='replay')
     if rep.get('wrong_key'):
-        if out['delivered'] or out['direct']['bcb'] != [sd.FAILED_SEC]:
+        if out['delivered'] or not out['sec_failure']:
             chk.fail(signature='C16 / wrong key: accepted, plaintext released or failure not reported', what='replay', replay_obj=rep)
     elif cls[0] == 'unaltered':
-        if not (out['delivered'] and out['payload'] == expect_payload_hex(ent) and out['direct']['bcb'] == [None]):
+        bcb = out['direct']['bcb']
+        if not (out['delivered'] and out['payload'] == expect_payload_hex(ent) and bcb and all(val is None for val in bcb)):
             chk.fail(signature='C16 / acceptor with the key does not recover the original plaintext', what='replay', replay_obj=rep)
     else:
         oracle(suite, ent, case, cls, out, rep)
@@ -387,7 +437,7 @@ def main():
         print('PENDING-FINDING (gated, reported to the coordinator): %s  [%d input(s); first: %s]' % (sig, info['count'], info['what'][:300]))
     chk.finish(
         rule=('for each of %d bundles (BCB applied by the real agent: Encrypt0 A128GCM/A256GCM direct key, Encrypt + AES-KW A128/A256, one with a '
-              'BIB as well, BCBs with two and three targets in both key modes with accept_after_verify on and off; plaintext lengths 0, 1, 11, 24, 300; or by the independent source with 7 AAD scopes / targets incl. two targets): '
+              'BIB as well, BCBs with two and three targets in both key modes with accept_after_verify on and off, two / three separate BCBs from different security sources over different targets (each key wrong in turn); plaintext lengths 0, 1, 11, 24, 300; or by the independent source with 7 AAD scopes / targets incl. two targets): '
               'wire BTSD is ciphertext (plaintext length + 16, not containing the plaintext), accepted BTSD == plaintext, wrong key fails and '
               'releases nothing; then every single-field alteration (cbor2 decode, one item changed/dropped/added, CRCs re-fixed, EID-syntax '
               'variants with and without CRC re-fix) and %s single-bit flips, through the real receive path and verify_bcb; distinct = '
